@@ -1,4 +1,5 @@
 import FimVerif.Proofs.Lemmas.C10Dec
+import FimVerif.Proofs.Lemmas.C10Hist
 /-!
 # C10 — slice validation accepts a topology exactly when the constraint tables allow it
 
@@ -411,6 +412,115 @@ permitted interface types and the interface type is not among them. -/
 theorem guardrail_sound :
     (genCfg.guardPairs.all fun g => (genCfg.svc.lookup g.1).any fun row =>
       !row.ifTypes.isEmpty && !row.ifTypes.contains g.2) = true := by decide
+
+/-! ## histories: the verdict depends on the slice as it is
+
+`Hist` (Model/ValidateHist.lean) models the calls that make and change a slice; `Hist.abs σ` is what `validate` sees. -/
+
+section histories
+open FimVerif.Validate.Hist
+
+/-- **The order in which a service lists its interfaces - the order in which they were connected - does not matter**: for
+any way `f` of permuting interface lists, validation succeeds on the reordered slice iff it does on the original, and records
+the same sites. -/
+theorem interface_order_irrelevant (c : Cfg) (f : List SIface → List SIface) (hf : ∀ l, (f l).Perm l) (t : Topo) :
+    ((validate c (t.reorder f)).1 = .ok () ↔ (validate c t).1 = .ok ()) ∧
+    ((validate c t).1 = .ok () → (validate c (t.reorder f)).2 = (validate c t).2.reorder f) :=
+  ⟨validate_reorder_ok f hf c t, validate_reorder_state f hf c t⟩
+
+/-- ... and for the shipped table the verdict is the same altogether (also when it is a refusal) -/
+theorem interface_order_irrelevant_gen (f : List SIface → List SIface) (hf : ∀ l, (f l).Perm l) (t : Topo)
+    (hn : ∀ n ∈ t.nodes, n.ty ∈ Gen.Constraints.nodeTypes) (hs : ∀ s ∈ t.svcs, s.ty ∈ Gen.Constraints.serviceTypes) :
+    (validate genCfg (t.reorder f)).1 = (validate genCfg t).1 := by
+  have hs' : ∀ s ∈ (t.reorder f).svcs, s.ty ∈ Gen.Constraints.serviceTypes := by
+    intro s h
+    obtain ⟨s0, h0, rfl⟩ := List.mem_map.mp h
+    exact hs s0 h0
+  have hiff := validate_reorder_ok f hf genCfg t
+  cases h1 : (validate genCfg t).1 with
+  | ok u => exact hiff.mpr h1
+  | error e =>
+    have e1 := validate_rejects_with_topology t e hn hs h1
+    cases h2 : (validate genCfg (t.reorder f)).1 with
+    | ok u => rw [hiff.mp h2] at h1; cases h1
+    | error e' => rw [validate_rejects_with_topology (t.reorder f) e' hn hs' h2, e1]
+
+/-- the verdict is a function of the slice with all interface names forgotten -/
+theorem verdict_of_eraseNames (c : Cfg) (t t' : Topo) (h : eraseNames t = eraseNames t') :
+    (validate c t).1 = (validate c t').1 := by
+  have a := validate_counts_by_identity c (fun _ => "") t
+  have b := validate_counts_by_identity c (fun _ => "") t'
+  have : (validate c (t.rename fun _ => "")).1 = (validate c (t'.rename fun _ => "")).1 := by
+    show (validate c (eraseNames t)).1 = (validate c (eraseNames t')).1
+    rw [h]
+  rw [a, b] at this
+  exact this
+
+/-- **connect, then disconnect again, leaves no trace**: whatever else is connected, the slice is as it was. -/
+theorem history_connect_disconnect (c : Cfg) (σ : Slice) (svc : String) (i : Nat) (h : (connect c σ svc i).1 = .ok ()) :
+    abs (disconnect (connect c σ svc i).2 i).2 = abs σ :=
+  (abs_connect_disconnect c σ svc i h).2
+
+/-- **Independent connects commute**: two interfaces connected to two services in either order - the same calls are
+refused, the same slice results. -/
+theorem history_connect_order (c : Cfg) (σ : Slice) (a b : String) (i j : Nat) (hab : a ≠ b) (hij : i ≠ j) :
+    (connect c (connect c σ a i).2 b j).1 = (connect c σ b j).1 ∧
+    (connect c (connect c σ b j).2 a i).1 = (connect c σ a i).1 ∧
+    abs (connect c (connect c σ a i).2 b j).2 = abs (connect c (connect c σ b j).2 a i).2 :=
+  connect_comm c σ a b i j hab hij
+
+/-- **Names are labels**: renaming a node changes nothing `validate` sees; renaming an interface changes names only; and a
+connect made after a node was renamed - its service port gets another derived name - gives the same verdict as without. -/
+theorem history_rename (c : Cfg) (σ : Slice) (n : Nat) (l svc : String) (i : Nat) :
+    abs (renameNode σ n l) = abs σ ∧
+    (validate c (abs (renameIface σ i l))).1 = (validate c (abs σ)).1 ∧
+    (connect c (renameNode σ n l) svc i).1 = (connect c σ svc i).1 ∧
+    (validate c (abs (connect c (renameNode σ n l) svc i).2)).1 = (validate c (abs (connect c σ svc i).2)).1 :=
+  ⟨abs_renameNode σ n l, verdict_of_eraseNames c _ _ (abs_renameIface σ i l), (connect_renameNode c σ n l svc i).1,
+    verdict_of_eraseNames c _ _ (connect_renameNode c σ n l svc i).2⟩
+
+/-- two nodes at RENC and UKY with one port each, and a free-standing service of the given type -/
+def exSlice (ty : String) (extra : List HSvc := []) : Slice :=
+  { exp := true,
+    nodes := [{ id := 0, label := "n0", ty := "VM", site := "RENC", props := [], hollow := [], blank := [], comps := [] },
+              { id := 1, label := "n1", ty := "VM", site := "UKY", props := [], hollow := [], blank := [], comps := [] }],
+    ifaces := [{ id := 0, label := "p0", kind := "DedicatedPort", node := 0, comp := none },
+               { id := 1, label := "p0", kind := "DedicatedPort", node := 1, comp := none },
+               { id := 2, label := "p1", kind := "DedicatedPort", node := 0, comp := none },
+               { id := 3, label := "p1", kind := "DedicatedPort", node := 1, comp := none }],
+    owned := [{ label := "n0-g0", ty := "OVS", site := none, node := 0, comp := none, ifs := [0, 2] },
+              { label := "n1-g0", ty := "OVS", site := none, node := 1, comp := none, ifs := [1, 3] }],
+    svcs := { label := "svc0", ty := ty, site := none, props := [], hollow := [], blank := [], ports := [] } :: extra,
+    next := 0 }
+
+/-- Known finding `C10:history:site-pinned:multi-site-type` (the code as it is): `validate` writes the inferred site also on
+a service whose type may span two sites; the same two connects validate when made in one go and are refused when a
+`validate` came in between. -/
+theorem validate_pins_multisite_counterexample :
+    (run genCfg (exSlice "L2Path") [.connect "svc0" 0, .connect "svc0" 1, .validate]).1 = [.ok (), .ok (), .ok ()] ∧
+    (run genCfg (exSlice "L2Path") [.connect "svc0" 0, .validate, .connect "svc0" 1, .validate]).1 =
+      [.ok (), .ok (), .ok (), .error .topology] := by decide
+
+/-- Known finding `C10:history:site-pinned:failed-validate` (the code as it is): a validation that fails (the bridge spans two
+sites) has already written the inferred site on the service checked before it; repaired and moved, the slice is refused
+although the same slice made without the failed validation is accepted. -/
+theorem failed_validate_leaves_site_counterexample :
+    (run genCfg (exSlice "P4" [{ label := "svc1", ty := "L2Bridge", site := none, props := [], hollow := [], blank := [], ports := [] }])
+      [.connect "svc0" 0, .connect "svc1" 2, .connect "svc1" 3, .validate,
+       .disconnect 3, .disconnect 0, .connect "svc0" 1, .validate]).1 =
+      [.ok (), .ok (), .ok (), .error .topology, .ok (), .ok (), .ok (), .error .topology] ∧
+    (run genCfg (exSlice "P4" [{ label := "svc1", ty := "L2Bridge", site := none, props := [], hollow := [], blank := [], ports := [] }])
+      [.connect "svc1" 2, .connect "svc0" 1, .validate]).1 = [.ok (), .ok (), .ok ()] := by decide
+
+/-- what the property does say a validation records - the site of a single-site service - binds afterwards: an L2Bridge
+validated at RENC and moved to UKY is refused (the recorded site is part of the slice as it is) -/
+example : (run genCfg (exSlice "L2Bridge") [.connect "svc0" 0, .validate, .disconnect 0, .connect "svc0" 1, .validate]).1 =
+    [.ok (), .ok (), .ok (), .ok (), .error .topology] := by decide
+
+/-- non-vacuity of `history_connect_disconnect` / `history_connect_order`: the connects below are accepted -/
+example : (connect genCfg (exSlice "L2Bridge") "svc0" 0).1 = .ok () := by decide
+
+end histories
 
 /-! ### non-vacuity -/
 
